@@ -48,6 +48,7 @@ type Closure struct {
 type SymRef struct {
 	cells []Value
 	idx   *Term // 64-bit
+	arr   bool  // large table: loads/stores go through SMT arrays instead of ite chains
 }
 
 type nilPtr struct{} // not used as value; nil pointers are (*Value)(nil)
